@@ -591,7 +591,7 @@ func TestVerifC17(t *testing.T) {
 		c := genC17(rt)
 		orig := vcommon.MustJSON(c)
 		v, nt, inc := runC17(c)
-		if inc {
+		if inc || (v != nil && transportNoise(v.Message)) {
 			col.Inconclusive()
 			return
 		}
